@@ -366,22 +366,33 @@ for _id, _sc in _SCOPES.items():
 
 _EXTRA = {
     "C01": [(C.C_element_gate_equality, "C01.1 the starting-atom helper compares elements by equality (no substring membership)")],
-    "C02": [(C.C_element_gate_equality, "C02 starting atoms: element equality"),
+    "C02": [(C.C_quaternion_layout, "C02 every pose is reachable: quaternion layout, roll sense and roll branch test (a wrong sense rejects half of the poses of a chiral pattern)"),
+            (D2.D7_hint_table, "C02 hint resolution table (a hint of 0 is a hint)"),
+            (C.C_element_gate_equality, "C02 starting atoms: element equality"),
             (A2.A15_none_tests, "C02 hints honoured for every valid index including 0 (a hint of 0 must not trigger the farthest-point fallback)")],
-    "C03": [(C.C_axis_diag, "C03 the orthorhombic fast path is taken only for exactly diagonal cell matrices"),
+    "C03": [(C.C_quaternion_layout, "C03 the result does not depend on the pose: roll sense and roll branch test"),
+            (D2.D7_hint_table, "C03.1 hint resolution table: a given hint is used as given (0 included), one axis hint selects the atom farthest from it, the orientation atom is computed only when absent"),
+            (C.C_axis_diag, "C03 the orthorhombic fast path is taken only for exactly diagonal cell matrices"),
             (A2.A14b_fallback_axis, "C03 antiparallel poses: detection with tolerance, angle test without exact pi, non-degenerate fallback axis")],
     "C04": [(C.C_return_shape, "C04 the search returns the shape its flag announces on every path (an empty search is an empty result, not an unpack error)")],
-    "C05": [(C.C_roll_gate, "C05 the roll about the matched axis is applied to every match with more than two atoms")],
+    "C05": [(C.C_wrap_modulus, "C05 inserted atoms are wrapped with period exactly 1 in fractional coordinates (inside the cell, by a lattice translation)"),
+            (C.C_roll_gate, "C05 the roll about the matched axis is applied to every match with more than two atoms")],
     "C06": [(C.C_idx_replace, "C06.2 index tuples, positions and rotations of the matches stay parallel, so the terms of an inserted fragment are attached to the atoms of the same match")],
-    "C08": [(A2.A14b_fallback_axis, "C08 reversibility needs every pose to be found again: antiparallel detection, angle test, fallback axis"),
-            (C.C_roll_gate, "C08 the roll about the matched axis is applied to every match with more than two atoms")],
+    "C08": [(C.C_quaternion_layout, "C08 reversibility needs every pose to be found again: roll sense and roll branch test"),
+            (A2.A14b_fallback_axis, "C08 reversibility needs every pose to be found again: antiparallel detection, angle test, fallback axis"),
+            (C.C_roll_gate, "C08 the roll about the matched axis is applied to every match with more than two atoms"),
+            (C.C_wrap_modulus, "C08 wraps are lattice translations (period 1 in fractional coordinates)")],
     "C12": [(C.C_axis_diag, "C12 np.diag(cell) is the box only under the exact orthorhombic test")],
-    "C15": [(C.C_axis_diag, "C15 Cartesian <-> fractional handling never uses the cell diagonal as the box without the orthorhombic test")],
+    "C15": [(C.C_wrap_modulus, "C15 reading wraps fractional coordinates with period exactly 1"),
+            (C.C_axis_diag, "C15 Cartesian <-> fractional handling never uses the cell diagonal as the box without the orthorhombic test")],
     "C17": [(C.C_axis_diag, "C17 periodic images come from the lattice rows; the cell diagonal is never used as the box without the orthorhombic test")],
     "C18": [(D2.D5_torsion_table, "C18.5 torsion case analysis agrees with the documented UFF case table on every abstract type combination"),
-            (D2.D6_bond_order_precedence, "C18.4 user bond-order rules take precedence over every built-in guess and are forwarded by every parameter function")],
+            (D2.D6_bond_order_precedence, "C18.4 user bond-order rules take precedence over every built-in guess and are forwarded by every parameter function"),
+            (D2.D8_formula_reference, "C18.1-3 pair, bond and angle parameters: returned terms equal the documented formulas in normal form on every abstract input (incl. the cosine/periodic n, b table and the fourier coefficients)"),
+            (D2.D9_type_string_parsing, "C18.5 element and hybridisation character are derived correctly from every one of the 221 type labels")],
     "C19": [(D2.D6_bond_order_precedence, "C19 term parameters honour the user bond-order rules")],
-    "C20": [(A2.A18b_pair_params_parallel, "C20 --pp: one pair coefficient and one label per atom type, in type order"),
+    "C20": [(A2.A18c_option_types, "C20 every option delivers the kind of value its use needs; command-line defaults equal the API defaults; library formats go to the library loader/saver"),
+            (A2.A18b_pair_params_parallel, "C20 --pp: one pair coefficient and one label per atom type, in type order"),
             (C.C_axis_diag, "C20 --mic: the cell diagonal is the box only under the exact orthorhombic test")],
 }
 for _id, _rules in _EXTRA.items():
@@ -389,4 +400,8 @@ for _id, _rules in _EXTRA.items():
 PROPERTIES["C18"]["decided"] += ("; the torsion case analysis of dihedral_params, evaluated over the finite partition of hybridisation characters and element classes induced by its own "
                                  "comparisons, selects the documented case (n, sign, barrier monomial incl. the division by the multiplicity) for every combination; user bond-order rules dominate built-in guesses")
 PROPERTIES["C18"]["explanation"] += " Decision-table evaluation over a finite abstract domain (representatives of the comparison-induced partition; no execution)."
-PROPERTIES["C20"]["decided"] += "; the minimum-image replication factor is ceil(2*mic/length); --pp produces one coefficient line and one label per atom type"
+PROPERTIES["C20"]["decided"] += ("; the minimum-image replication factor is ceil(2*mic/length); --pp produces one coefficient line and one label per atom type; option kinds (Path, float, int, three ints, flag, file) "
+                                 "match their use and command-line defaults equal the API defaults")
+PROPERTIES["C18"]["decided"] += ("; pair_coeffs, bond_params and angle_params return, on every abstract input, terms whose normal form (modulo associativity, commutativity, constant folding, proven symmetry of bond_params) "
+                                 "equals the documented formulas transcribed in rules/fam_d2.py; element / hybridisation parsing is correct for all 221 keys")
+PROPERTIES["C03"]["decided"] += "; the values of the three hint variables after the None case analysis are the documented ones for all 54 combinations of (None / 0 / other) hints and both outcomes of the size test"
